@@ -127,7 +127,7 @@ def handleAdd (st : RibSt) (op : Op) (oks fails : List Nat) (fatal : Bool) : Rib
   | none =>
     st.diff "add.cascade-not-accepted" s!"op={op.id} impl.oks={showIds oks} impl.fails={showIds fails}"
   | some (m', out) =>
-    let st := { st with model := m', lastHooks := out.hooks, lastResolved := out.resolved }
+    let st := { st with model := m', lastHooks := st.lastHooks ++ out.hooks, lastResolved := st.lastResolved ++ out.resolved }
     let mOks := out.oks.map (·.id)
     if mOks ≠ oks then st.diff "add.oks" s!"op={op.id} model={showIds mOks} impl={showIds oks}"
     else if out.fails ≠ fails then st.diff "add.fails" s!"op={op.id} model={showIds out.fails} impl={showIds fails}"
@@ -141,7 +141,7 @@ def handleDel (st : RibSt) (op : Op) (oks fails : List Nat) (fatal : Bool) : Rib
   let st := ackFold st oks
   if st.diverged then st else
   let (m', out) := st.model.del op
-  let st := { st with model := m', lastHooks := out.hooks, lastResolved := out.resolved }
+  let st := { st with model := m', lastHooks := st.lastHooks ++ out.hooks, lastResolved := st.lastResolved ++ out.resolved }
   let mOks := out.oks.map (·.id)
   if mOks ≠ oks then st.diff "del.oks" s!"op={op.id} model={showIds mOks} impl={showIds oks}"
   else if out.fails ≠ fails then st.diff "del.fails" s!"op={op.id} model={showIds out.fails} impl={showIds fails}"
@@ -156,7 +156,7 @@ def handleFlush (st : RibSt) (nis : List NI) (ok : Bool) : RibSt :=
   let st := if ok then st else st.monfail "c08" "flush reported an error"
   if st.diverged then st else
   let (m', hk) := st.model.flush nis
-  let st := { st with model := m', lastHooks := hk, lastResolved := [] }
+  let st := { st with model := m', lastHooks := st.lastHooks ++ hk }
   if ok then st else st.diff "flush.ok" "model=true impl=false"
 
 def parseEnts (gs : List (List Tok)) : Option (Map EKey Payload) :=
